@@ -7,13 +7,13 @@ CONSTANTS
   MULT = 5
   BLOCKGAS = 250
   GATEWAY = "gw"
-  DEVS = {}
+  DEVS = {"DEV_BatchCreateResetsNonce"}
   SENDERS = {"a1", "a2"}
-  TARGETS = {"a2", "c", "pre", "w", "new"}
+  TARGETS = {"a2", "c", "w", "new"}
   TYPES = {"leg", "dyn"}
   PCS_N = {"at", "above"}
   PCS_X = {"below"}
-  TIPS_N = {"zero", "one"}
+  TIPS_N = {"one"}
   TIPS_X = {}
   GLS_N = {"intr", "big"}
   GLS_X = {}
@@ -21,9 +21,9 @@ CONSTANTS
   VCS_X = {"split"}
   NCS_X = {"ahead"}
   MAXEXC = 1
-  MAXTX = 3
+  MAXTX = 2
   MAXBLOCKS = 1
-  MAXOPS = 4
+  MAXOPS = 1
   GENBAL = 1000
   BFS = {2}
   BATCH = "first"
@@ -31,5 +31,5 @@ CONSTANTS
   GEN = FALSE
 VIEW View
 INVARIANTS InvNonNeg
-PROPERTIES PropC19 PropBatchIsTx
+PROPERTIES PropAdmission PropFrame PropAccounting
 CHECK_DEADLOCK FALSE
